@@ -33,7 +33,7 @@ from pathlib import Path
 
 from src.core.base import BaseLintContext, MultiLanguageLintRule
 from src.core.constants import split_lines
-from src.core.linter_utils import load_linter_config
+from src.core.linter_utils import load_linter_config, path_in_project
 from src.core.types import Violation
 
 from .config import MethodPropertyConfig
@@ -144,7 +144,7 @@ class MethodPropertyRule(MultiLanguageLintRule):  # thailint: ignore[srp,dry]
         if not context.file_path:
             return False
 
-        file_path = Path(context.file_path)
+        file_path = Path(path_in_project(context))  # the path inside the project decides
         return any(self._matches_pattern(file_path, pattern) for pattern in config.ignore)
 
     def _matches_pattern(self, file_path: Path, pattern: str) -> bool:
